@@ -274,6 +274,20 @@ CORPUS = [
      'runs': [{'outcomes': ['done', 'done', 'done', 'done'], 'strategy': 'uniform', 'seed': 68},
               {'outcomes': ['done', 'done', 'done', 'done'], 'lost': [1], 'strategy': 'uniform', 'seed': 69},
               {'outcomes': ['done', 'raise', 'done', 'done'], 'lost': [0], 'strategy': 'uniform', 'seed': 70}]},
+    # C01: a DONE task with two dependencies on a re-run: one lost (running again when the master looks at the
+    # task), the other refreshed by an earlier sub-job and newer than the task
+    {'n': 3, 'hard': [[], [], [0, 1]], 'soft': [[], [], []], 'workers': 2, 'only': ['C01'],
+     'runs': [{'outcomes': ['done', 'done', 'done'], 'strategy': 'uniform', 'seed': 71},
+              {'outcomes': ['done', 'done', 'done'], 'lost': [1], 'hard': [[], [], [0]], 'soft': [[], [], []],
+               'strategy': 'uniform', 'seed': 72},
+              {'outcomes': ['done', 'done', 'done'], 'lost': [0], 'hard': [[], [], [0, 1]], 'soft': [[], [], []],
+               'strategy': 'master_first', 'seed': 73}]},
+    {'n': 4, 'hard': [[], [], [0], [0, 1]], 'soft': [[], [], [], [2]], 'workers': 3, 'only': ['C01'],
+     'runs': [{'outcomes': ['done', 'done', 'done', 'done'], 'strategy': 'uniform', 'seed': 74},
+              {'outcomes': ['done', 'done', 'done', 'done'], 'lost': [1], 'hard': [[], [], [0], [0]], 'soft': [[], [], [], []],
+               'strategy': 'uniform', 'seed': 75},
+              {'outcomes': ['done', 'done', 'done', 'done'], 'lost': [0], 'hard': [[], [], [0], [0, 1]], 'soft': [[], [], [], [2]],
+               'strategy': 'master_first', 'seed': 76}]},
     # C03: cyclic graph; stale statuses in the initial environment
     {'n': 2, 'hard': [[1], [0]], 'soft': [[], []], 'workers': 2,
      'runs': [{'outcomes': ['done', 'done'], 'strategy': 'uniform', 'seed': 6}]},
